@@ -25,13 +25,16 @@ XOfDigits(ds) == QSum([k \in 1 .. Len(ds) |-> QMul(QInt(ds[k]), QPow2(-(N * k)))
 Centre1(c, lo, up, m) == QAdd(lo, QMul(QSub(up, lo), QMul(QInt(2 * c + 1), QPow2(-(m + 1)))))
 HalfCell1(lo, up, m)  == QMul(QSub(up, lo), QPow2(-(m + 1)))
 Scale1(lo, up)        == QAdd(QAbs(lo), QAbs(up))
+(* tolerance of the affine cube-to-box map: purely relative to the magnitude of the bounds (positive, since lo < up) - an absolute *)
+(* term would swallow whole cells of a tiny box (sides 1e-9 with density 20)                                                    *)
+ETol(scale)           == QMul(QPow2(-40), scale)
 
 (* --- clauses; each returns the set of names of the clauses that FAIL ---- *)
 
 (* GetImage, N >= 2: y is the centre of the cell of x's subinterval, inside the box *)
 \* (operator arguments are evaluated once by TLC; LET bodies at every use)
 ImageFailsC(c, y, lo, up, m) ==
-    {"ImgCentre" : i \in {k \in 1..N : ~QClose(y[k], Centre1(c[k], lo[k], up[k], m), QTol(Scale1(lo[k], up[k])))}}
+    {"ImgCentre" : i \in {k \in 1..N : ~QClose(y[k], Centre1(c[k], lo[k], up[k], m), ETol(Scale1(lo[k], up[k])))}}
     \cup {"ImgInBox" : i \in {k \in 1..N : ~(QLeq(lo[k], y[k]) /\ QLeq(y[k], up[k]))}}
 
 ImageFails(x, y, lo, up, m) == ImageFailsC(CellOf(DigitsOfX(x, m)), y, lo, up, m)
@@ -39,14 +42,14 @@ ImageFails(x, y, lo, up, m) == ImageFailsC(CellOf(DigitsOfX(x, m)), y, lo, up, m
 (* GetImage, N = 1: the affine map *)
 Image1Fails(x, y, lo, up) ==
   LET want == QAdd(lo[1], QMul(x, QSub(up[1], lo[1]))) IN
-    (IF QClose(y[1], want, QTol(Scale1(lo[1], up[1]))) THEN {} ELSE {"ImgAffine"})
-    \cup (IF QLeq(QSub(lo[1], QTol(Scale1(lo[1], up[1]))), y[1]) /\ QLeq(y[1], QAdd(up[1], QTol(Scale1(lo[1], up[1]))))
+    (IF QClose(y[1], want, ETol(Scale1(lo[1], up[1]))) THEN {} ELSE {"ImgAffine"})
+    \cup (IF QLeq(QSub(lo[1], ETol(Scale1(lo[1], up[1]))), y[1]) /\ QLeq(y[1], QAdd(up[1], ETol(Scale1(lo[1], up[1]))))
           THEN {} ELSE {"ImgInBox"})
 
 InvCellFails(c, y, lo, up, m) ==
       {"InvCell" : i \in {k \in 1..N :
            ~QClose(y[k], Centre1(c[k], lo[k], up[k], m),
-                   QAdd(HalfCell1(lo[k], up[k], m), QTol(Scale1(lo[k], up[k]))))}}
+                   QAdd(HalfCell1(lo[k], up[k], m), ETol(Scale1(lo[k], up[k]))))}}
 
 (* GetInverseImage / GetPreimages, N >= 2: x is the left end of a subinterval *)
 (* (on the grid, in [0,1)) whose cell contains y                              *)
@@ -57,7 +60,9 @@ InverseFails(y, x, lo, up, m) ==
 
 Inverse1Fails(y, x, lo, up) ==
   LET want == QDiv(QSub(y[1], lo[1]), QSub(up[1], lo[1])) IN
-    IF QClose(x, want, QTol(QAdd(Q1, QAbs(want)))) THEN {} ELSE {"InvAffine"}
+    \* the code centres y on the midpoint of the segment first: an ulp of the bounds' magnitude, divided by the width
+    IF QClose(x, want, QAdd(QTol(QAdd(Q1, QAbs(want))), QMul(QPow2(-46), QDiv(Scale1(lo[1], up[1]), QSub(up[1], lo[1])))))
+    THEN {} ELSE {"InvAffine"}
 
 (* inverse(image(x)) is x rounded down to the subinterval grid; 1 -> last subinterval *)
 RoundTripFails(x, x2, m) ==
@@ -78,16 +83,16 @@ HoelderFails(x1, x2, y1, y2, lo, up, m) ==
 
 (* two consecutive subintervals: centres differ in exactly one coordinate by one cell width *)
 AdjacentFails(y1, y2, lo, up, m) ==
-  LET far == {k \in 1..N : ~QClose(y1[k], y2[k], QTol(Scale1(lo[k], up[k])))} IN
+  LET far == {k \in 1..N : ~QClose(y1[k], y2[k], ETol(Scale1(lo[k], up[k])))} IN
     IF Cardinality(far) # 1 THEN {"AdjOneAxis"}
     ELSE LET k == CHOOSE k \in far : TRUE IN
-      IF QClose(QAbs(QSub(y1[k], y2[k])), QMul(QSub(up[k], lo[k]), QPow2(-m)), QTol(Scale1(lo[k], up[k])))
+      IF QClose(QAbs(QSub(y1[k], y2[k])), QMul(QSub(up[k], lo[k]), QPow2(-m)), ETol(Scale1(lo[k], up[k])))
       THEN {} ELSE {"AdjWidth"}
 
 (* the density-(m+1) image lies inside the density-m cell of the same point *)
 NestFails(yc, yf, lo, up, m) ==
   {"Nest" : i \in {k \in 1..N :
-      ~QLeq(QAbs(QSub(yc[k], yf[k])), QAdd(HalfCell1(lo[k], up[k], m), QTol(Scale1(lo[k], up[k]))))}}
+      ~QLeq(QAbs(QSub(yc[k], yf[k])), QAdd(HalfCell1(lo[k], up[k], m), ETol(Scale1(lo[k], up[k]))))}}
 
 (* C20: y is a cell centre of the density-m grid of the box (and of no other density) *)
 OnGridFails(y, lo, up, m) ==
@@ -96,5 +101,5 @@ OnGridFails(y, lo, up, m) ==
           j == QFloor(t) IN
         ~( QLeq(Q0, j) /\ QLt(j, QPow2(m))
            /\ QClose(y[k], QAdd(lo[k], QMul(QSub(up[k], lo[k]), QMul(QAdd(QMul(Q2, j), Q1), QPow2(-(m + 1))))),
-                     QTol(Scale1(lo[k], up[k]))) )}}
+                     ETol(Scale1(lo[k], up[k]))) )}}
 =============================================================================
